@@ -313,6 +313,9 @@ int assemble_code(
        address <= asm_context.memory.high_address;
        address++)
   {
+    // Addresses the code skips (.org, .resb, .align) keep their content.
+    if (asm_context.memory.read_debug(address) == DL_EMPTY) { continue; }
+
     uint8_t value = asm_context.memory.read8(address);
     util_context.memory.write8(address, value);
   }
